@@ -64,6 +64,9 @@ theories/Gherkin.vos theories/Gherkin.vok theories/Gherkin.required_vos: theorie
 theories/GherkinProofs.vo theories/GherkinProofs.glob theories/GherkinProofs.v.beautified theories/GherkinProofs.required_vo: theories/GherkinProofs.v theories/Base.vo theories/UStr.vo theories/GherkinTypes.vo theories/Gherkin.vo gen/UnicodeTables.vo gen/GherkinTables.vo
 theories/GherkinProofs.vio: theories/GherkinProofs.v theories/Base.vio theories/UStr.vio theories/GherkinTypes.vio theories/Gherkin.vio gen/UnicodeTables.vio gen/GherkinTables.vio
 theories/GherkinProofs.vos theories/GherkinProofs.vok theories/GherkinProofs.required_vos: theories/GherkinProofs.v theories/Base.vos theories/UStr.vos theories/GherkinTypes.vos theories/Gherkin.vos gen/UnicodeTables.vos gen/GherkinTables.vos
+theories/GherkinRowProofs.vo theories/GherkinRowProofs.glob theories/GherkinRowProofs.v.beautified theories/GherkinRowProofs.required_vo: theories/GherkinRowProofs.v theories/Base.vo theories/UStr.vo theories/GherkinTypes.vo theories/Gherkin.vo theories/UserDataProofs.vo
+theories/GherkinRowProofs.vio: theories/GherkinRowProofs.v theories/Base.vio theories/UStr.vio theories/GherkinTypes.vio theories/Gherkin.vio theories/UserDataProofs.vio
+theories/GherkinRowProofs.vos theories/GherkinRowProofs.vok theories/GherkinRowProofs.required_vos: theories/GherkinRowProofs.v theories/Base.vos theories/UStr.vos theories/GherkinTypes.vos theories/Gherkin.vos theories/UserDataProofs.vos
 theories/GherkinTypes.vo theories/GherkinTypes.glob theories/GherkinTypes.v.beautified theories/GherkinTypes.required_vo: theories/GherkinTypes.v theories/Base.vo
 theories/GherkinTypes.vio: theories/GherkinTypes.v theories/Base.vio
 theories/GherkinTypes.vos theories/GherkinTypes.vok theories/GherkinTypes.required_vos: theories/GherkinTypes.v theories/Base.vos
@@ -136,6 +139,9 @@ theories/SummaryProofs.vos theories/SummaryProofs.vok theories/SummaryProofs.req
 theories/TagExpr.vo theories/TagExpr.glob theories/TagExpr.v.beautified theories/TagExpr.required_vo: theories/TagExpr.v theories/Base.vo theories/UStr.vo gen/UnicodeTables.vo
 theories/TagExpr.vio: theories/TagExpr.v theories/Base.vio theories/UStr.vio gen/UnicodeTables.vio
 theories/TagExpr.vos theories/TagExpr.vok theories/TagExpr.required_vos: theories/TagExpr.v theories/Base.vos theories/UStr.vos gen/UnicodeTables.vos
+theories/TagExprParseProofs.vo theories/TagExprParseProofs.glob theories/TagExprParseProofs.v.beautified theories/TagExprParseProofs.required_vo: theories/TagExprParseProofs.v theories/Base.vo theories/UStr.vo theories/TagExpr.vo theories/TagExprProofs.vo
+theories/TagExprParseProofs.vio: theories/TagExprParseProofs.v theories/Base.vio theories/UStr.vio theories/TagExpr.vio theories/TagExprProofs.vio
+theories/TagExprParseProofs.vos theories/TagExprParseProofs.vok theories/TagExprParseProofs.required_vos: theories/TagExprParseProofs.v theories/Base.vos theories/UStr.vos theories/TagExpr.vos theories/TagExprProofs.vos
 theories/TagExprProofs.vo theories/TagExprProofs.glob theories/TagExprProofs.v.beautified theories/TagExprProofs.required_vo: theories/TagExprProofs.v theories/Base.vo theories/UStr.vo theories/TagExpr.vo gen/UnicodeTables.vo
 theories/TagExprProofs.vio: theories/TagExprProofs.v theories/Base.vio theories/UStr.vio theories/TagExpr.vio gen/UnicodeTables.vio
 theories/TagExprProofs.vos theories/TagExprProofs.vok theories/TagExprProofs.required_vos: theories/TagExprProofs.v theories/Base.vos theories/UStr.vos theories/TagExpr.vos gen/UnicodeTables.vos
@@ -157,18 +163,18 @@ props/C02.vos props/C02.vok props/C02.required_vos: props/C02.v theories/Base.vo
 props/C03.vo props/C03.glob props/C03.v.beautified props/C03.required_vo: props/C03.v theories/Base.vo theories/Status.vo theories/Rollup.vo theories/RollupProofs.vo gen/StatusTable.vo
 props/C03.vio: props/C03.v theories/Base.vio theories/Status.vio theories/Rollup.vio theories/RollupProofs.vio gen/StatusTable.vio
 props/C03.vos props/C03.vok props/C03.required_vos: props/C03.v theories/Base.vos theories/Status.vos theories/Rollup.vos theories/RollupProofs.vos gen/StatusTable.vos
-props/C04.vo props/C04.glob props/C04.v.beautified props/C04.required_vo: props/C04.v theories/Base.vo theories/UStr.vo theories/GherkinTypes.vo theories/Gherkin.vo theories/GherkinProofs.vo gen/GherkinTables.vo
-props/C04.vio: props/C04.v theories/Base.vio theories/UStr.vio theories/GherkinTypes.vio theories/Gherkin.vio theories/GherkinProofs.vio gen/GherkinTables.vio
-props/C04.vos props/C04.vok props/C04.required_vos: props/C04.v theories/Base.vos theories/UStr.vos theories/GherkinTypes.vos theories/Gherkin.vos theories/GherkinProofs.vos gen/GherkinTables.vos
+props/C04.vo props/C04.glob props/C04.v.beautified props/C04.required_vo: props/C04.v theories/Base.vo theories/UStr.vo theories/GherkinTypes.vo theories/Gherkin.vo theories/GherkinProofs.vo theories/GherkinRowProofs.vo gen/GherkinTables.vo
+props/C04.vio: props/C04.v theories/Base.vio theories/UStr.vio theories/GherkinTypes.vio theories/Gherkin.vio theories/GherkinProofs.vio theories/GherkinRowProofs.vio gen/GherkinTables.vio
+props/C04.vos props/C04.vok props/C04.required_vos: props/C04.v theories/Base.vos theories/UStr.vos theories/GherkinTypes.vos theories/Gherkin.vos theories/GherkinProofs.vos theories/GherkinRowProofs.vos gen/GherkinTables.vos
 props/C05.vo props/C05.glob props/C05.v.beautified props/C05.required_vo: props/C05.v theories/Base.vo theories/UStr.vo theories/GherkinTypes.vo theories/Gherkin.vo theories/GherkinProofs.vo
 props/C05.vio: props/C05.v theories/Base.vio theories/UStr.vio theories/GherkinTypes.vio theories/Gherkin.vio theories/GherkinProofs.vio
 props/C05.vos props/C05.vok props/C05.required_vos: props/C05.v theories/Base.vos theories/UStr.vos theories/GherkinTypes.vos theories/Gherkin.vos theories/GherkinProofs.vos
 props/C06.vo props/C06.glob props/C06.v.beautified props/C06.required_vo: props/C06.v theories/Base.vo theories/UStr.vo theories/Outline.vo theories/OutlineProofs.vo
 props/C06.vio: props/C06.v theories/Base.vio theories/UStr.vio theories/Outline.vio theories/OutlineProofs.vio
 props/C06.vos props/C06.vok props/C06.required_vos: props/C06.v theories/Base.vos theories/UStr.vos theories/Outline.vos theories/OutlineProofs.vos
-props/C07.vo props/C07.glob props/C07.v.beautified props/C07.required_vo: props/C07.v theories/Base.vo theories/UStr.vo theories/TagExpr.vo theories/TagExprProofs.vo
-props/C07.vio: props/C07.v theories/Base.vio theories/UStr.vio theories/TagExpr.vio theories/TagExprProofs.vio
-props/C07.vos props/C07.vok props/C07.required_vos: props/C07.v theories/Base.vos theories/UStr.vos theories/TagExpr.vos theories/TagExprProofs.vos
+props/C07.vo props/C07.glob props/C07.v.beautified props/C07.required_vo: props/C07.v theories/Base.vo theories/UStr.vo theories/TagExpr.vo theories/TagExprProofs.vo theories/TagExprParseProofs.vo
+props/C07.vio: props/C07.v theories/Base.vio theories/UStr.vio theories/TagExpr.vio theories/TagExprProofs.vio theories/TagExprParseProofs.vio
+props/C07.vos props/C07.vok props/C07.required_vos: props/C07.v theories/Base.vos theories/UStr.vos theories/TagExpr.vos theories/TagExprProofs.vos theories/TagExprParseProofs.vos
 props/C08.vo props/C08.glob props/C08.v.beautified props/C08.required_vo: props/C08.v theories/Base.vo theories/UStr.vo theories/TagExpr.vo theories/TagExprProofs.vo
 props/C08.vio: props/C08.v theories/Base.vio theories/UStr.vio theories/TagExpr.vio theories/TagExprProofs.vio
 props/C08.vos props/C08.vok props/C08.required_vos: props/C08.v theories/Base.vos theories/UStr.vos theories/TagExpr.vos theories/TagExprProofs.vos
